@@ -20,7 +20,7 @@ def state_view(st):
     return world.canon({k: st[k] for k in STATE_KEYS})
 
 
-OUTPUT_KEYS = ('exit', 'ocs', 'listing', 'lines', 'diag', 'printed')
+OUTPUT_KEYS = ('exit', 'ocs', 'listing', 'lines', 'diag', 'printed', 'undef')
 
 
 def op_key(lab):
@@ -135,6 +135,11 @@ def run_group(g, seed, opts=None):
                 an1 = an1 + ['escape: %s %s' % (e['op'], e.get('escape')) for e in esc[:3]]
         best = None
         for al in g['allowed']:
+            if al['lab'].get('undef') and obs.get('listing') == al['lab']['listing']:
+                best = []          # the specification leaves this case open
+                an1 = []
+                res['undef'] = True
+                break
             d = diff_states(st1, al['post'], tex_superset=(g['lab']['cmd'] == 'put')) + out_matches(g['lab']['cmd'], obs, al['lab'])
             if best is None or len(d) < len(best):
                 best = d
@@ -188,11 +193,12 @@ _POOL = [None, 0]
 
 
 def get_pool(procs):
-    """a pool of lean, spawned workers (forking a command from a worker that inherited a large parent heap
-    costs milliseconds of page-table copying per command)"""
+    """a pool of lean workers, forked before the parent loads anything big (forking a command from a worker
+    that inherited a large parent heap costs milliseconds of page-table copying per command)"""
     if _POOL[0] is None or _POOL[1] != procs:
         close_pool()
-        ctx = multiprocessing.get_context('spawn')
+        # fork context: call get_pool() EARLY, while the parent is still small
+        ctx = multiprocessing.get_context('fork')
         _POOL[0] = ctx.Pool(procs, initializer=_init)
         _POOL[1] = procs
     return _POOL[0]
@@ -213,3 +219,108 @@ def run_groups(jobs, procs=None):
         return [_work(j) for j in jobs]
     pool = get_pool(procs)
     return pool.map(_work, jobs, chunksize=max(1, min(40, len(jobs) // (procs * 4) or 1)))
+
+
+# ---- behaviour replay ---------------------------------------------------------------
+
+def run_behaviour(beh, seed, opts=None):
+    """beh = {cfg, init, hist: [{lab, post, lines, diag}]}: every step is a real command (or an environment
+    action performed by the harness); after every step the projection must equal the behaviour's state and
+    trash-list must print the state's bag."""
+    opts = opts or {}
+    conc = world.Conc(seed, **opts.get('conc', {}))
+    w = world.World(conc, beh['cfg'])
+    res = {'seed': seed, 'status': 'ok', 'diffs': [], 'cfg': beh['cfg'], 'steps': 0, 'cmds': [], 'nontrivial': 0,
+           'observed_steps': []}
+    try:
+        w.materialise(beh['init'])
+        st0, an0, slots = w.project()
+        d0 = diff_states(st0, beh['init'])
+        if d0 or an0:
+            res['status'] = 'machinery'
+            res['diffs'] = ['materialise/project self-check failed'] + d0 + an0
+            return res
+        r = ops.OpRunner(w, seed=seed, shim_extra=opts.get('shim', {}))
+        prev = beh['init']
+        for k, step in enumerate(beh['hist']):
+            lab = step['lab']
+            if lab['cmd'] == 'restore' and lab['reply']['k'] == 'idx' and lab['listing']:
+                # The specification leaves the order of equal sort keys (and of --sort none) open.  The behaviour
+                # fixes one listing; the real command may print another legal one.  Learn the real order first
+                # (same command, end of input as reply: must change nothing), then choose the indexes that denote
+                # the SAME entries.  Whether the printed order is legal is judged by TLC (TrashTrace) on the
+                # recorded step.
+                st_r = r.rnd.getstate()
+                pobs, praw = r.restore(dict(lab, reply={'k': 'eof'}), prev)
+                r.rnd.setstate(st_r)
+                want = [lab['listing'][i] for i in lab['reply']['idx']]
+                newidx = []
+                used = set()
+                okmap = True
+                for e in want:
+                    cands = [i for i, x in enumerate(pobs['listing']) if x == e]
+                    if not cands:
+                        okmap = False
+                        break
+                    newidx.append(cands[0])
+                if okmap and sorted(map(json.dumps, pobs['listing'])) == sorted(map(json.dumps, lab['listing'])):
+                    lab = dict(lab, reply={'k': 'idx', 'idx': newidx}, listing=pobs['listing'])
+                    step = dict(step, lab=lab)
+            obs, raw = r.run(lab, prev, slots=slots)
+            st1, an1, slots = w.project()
+            diffs = diff_states(st1, step['post'], tex_superset=(lab['cmd'] == 'put')) + an1
+            if lab['cmd'] in ('put', 'list', 'restore', 'empty', 'rm'):
+                diffs += out_matches(lab['cmd'], obs, lab)
+                res['cmds'].append(lab['cmd'])
+            if lab['cmd'] == 'put' and raw is not None:
+                diffs += put_diag_check({'allowed': [{'lab': lab}]}, raw)
+            if not diffs and opts.get('list_after', True):
+                lobs, lraw = r.list({'td': 'none'}, step['post'])
+                diffs += ['after step %d, %s' % (k, d) for d in
+                          out_matches('list', lobs, {'exit': 'ok', 'lines': step['lines'], 'diag': step['diag']})]
+                st2, an2, slots = w.project()
+                diffs += ['trash-list changed the state: ' + d for d in diff_states(st2, step['post'], tex_superset=(lab['cmd'] == 'put')) + an2]
+            res['steps'] = k + 1
+            if lab['cmd'] in ('put', 'restore', 'empty', 'rm') and not diffs:
+                olab = dict(lab)
+                olab.update({kk: obs[kk] for kk in ('exit', 'listing', 'printed') if kk in obs})
+                res.setdefault('observed_steps', []).append({'cfg': beh['cfg'], 'pre': dict(prev), 'lab': olab,
+                                                             'post': dict(st1, clock=step['post']['clock'], purged=[])})
+            if state_view(prev) != state_view(step['post']):
+                res['nontrivial'] += 1
+            if diffs:
+                res['status'] = 'mismatch'
+                res['diffs'] = ['step %d (%s): %s' % (k, lab['cmd'], d) for d in diffs]
+                res['failing_step'] = k
+                res['lab'] = lab
+                if raw is not None:
+                    res['run'] = {'argv': raw.get('argv'), 'cwd': raw.get('cwd'), 'exit': raw.get('exit'),
+                                  'stdout': raw['stdout'][-600:].decode('utf-8', 'backslashreplace'),
+                                  'stderr': raw['stderr'][-1500:].decode('utf-8', 'backslashreplace'),
+                                  'spelled': raw.get('spelled'), 'stdin': raw.get('stdin'), 'pattern': raw.get('pattern')}
+                res['observed_state'] = st1
+                break
+            prev = step['post']
+            w.rebaseline()
+        res['names'] = {k: v.decode('utf-8', 'backslashreplace') for k, v in conc.names.items()}
+        return res
+    except Exception:
+        res['status'] = 'machinery'
+        res['diffs'] = [traceback.format_exc()]
+        return res
+    finally:
+        w.destroy()
+
+
+def _work_beh(job):
+    beh, seed, opts = job
+    return run_behaviour(beh, seed, opts)
+
+
+def run_behaviours(jobs, procs=None):
+    procs = procs or min(16, os.cpu_count() or 4)
+    if procs == 1 or len(jobs) < 4:
+        _init()
+        return [_work_beh(j) for j in jobs]
+    pool = get_pool(procs)
+    return pool.map(_work_beh, jobs, chunksize=max(1, min(10, len(jobs) // (procs * 4) or 1)))
